@@ -153,12 +153,13 @@ func main() {
 		T(p(0, 0, 0), p(1, 0, 0), p(0, 1, 0)),                                // exact duplicate of the first
 		T(p(-1.5, -2.25, -3), p(-1, -1, -1), p(-0.00001, 12345.678912, 0.1)), // negative, tiny, large
 		T(p(0.12344, 0.12346, 0.5), p(0.33333333, 2.0/3, 16777217), p(5, 5, 5)),
-		T(p(0.00007, 1, 1), p(1, -0.00008, 2), p(3, 1, 0.00005001)), // between half a unit and one unit of the fourth decimal
-		T(p(2, 2, 2), p(2+5e-7, 2, 2), p(2, 3, 2)),                  // sliver: two corners closer than 1e-6
-		T(p(1e-5, 0, 0), p(0, 1e-5, 0), p(0, 0, 1e-5)),              // tiny but non-degenerate
-		T(p(0, 1, 0), p(1, 0, 0), p(0, 0, 0)),                       // the first one with reversed winding
-		T(p(1, 2, 3), p(1, 2, 3), p(4, 5, 6)),                       // two identical corners: still one triangle of the list
-		T(p(7, 5000, 0), p(7, 5001, 0), p(7, 5000, 3)),              // a part more than 2147.48 units from the origin (beyond int32 micro-units)
+		T(p(0.00007, 1, 1), p(1, -0.00008, 2), p(3, 1, 0.00005001)),                                    // between half a unit and one unit of the fourth decimal
+		T(p(2, 2, 2), p(2+5e-7, 2, 2), p(2, 3, 2)),                                                     // sliver: two corners closer than 1e-6
+		T(p(1e-5, 0, 0), p(0, 1e-5, 0), p(0, 0, 1e-5)),                                                 // tiny but non-degenerate
+		T(p(0, 1, 0), p(1, 0, 0), p(0, 0, 0)),                                                          // the first one with reversed winding
+		T(p(1, 2, 3), p(1, 2, 3), p(4, 5, 6)),                                                          // two identical corners: still one triangle of the list
+		T(p(math.Copysign(0, -1), 0, 0), p(1, math.Copysign(0, -1), 0), p(0, 1, math.Copysign(0, -1))), // the first triangle with negative zeros: the same three positions
+		T(p(7, 5000, 0), p(7, 5001, 0), p(7, 5000, 3)),                                                 // a part more than 2147.48 units from the origin (beyond int32 micro-units)
 		T(p(-3000, -3000, -3000), p(-3001, -3000, -3000), p(-3000, -3002, -3000)),
 	}
 	l3 := lists(menu3, vlib.Pick(c, 3, 4))
